@@ -105,8 +105,7 @@ def replay(binary, jsonl, seed, level=1, nproc=None, op="replay", extra_env=None
                   "TMPDIR": d})
         if extra_env:
             e.update({k: str(v) for k, v in extra_env.items()})
-        procs.append((p, d, subprocess.Popen([binary, "-test.run", "^TestHarness$", "-test.timeout", "0"], env=e, cwd=d,
-                                             stdout=subprocess.PIPE, stderr=subprocess.PIPE, text=True)))
+        procs.append((p, d, c.FileProc([binary, "-test.run", "^TestHarness$", "-test.timeout", "0"], e, d)))
     t0 = time.time()
     agg = {"behaviours": 0, "steps": 0, "queries": 0, "dev_used": collections.Counter(), "mismatches": [], "samples": [],
            "crashed": [], "stats": collections.Counter()}
